@@ -126,11 +126,34 @@ Section Crypto.
        (s_scheme s = 3 /\ o_tok1 o = None /\
         n3_ok (o_owner o) (o_epoch o) (s_val s) (s_key s) (id_bytes o) = true)).
 
+  (* format of the content of system objects (FormatValidator.ValidateContent), whatever the
+     payload length: a LINK object carries a non-empty payload that parses as a link, names
+     its first child and its container and passes the split-chain verifier; TOMBSTONE and LOCK
+     objects are 2.18+ ones (target in the header) without payload, and a tombstone passes
+     the tombstone verifier *)
+  Definition content_ok (e : env) (o : obj) (pl : bytes) : Prop :=
+    match o_type o with
+    | TLink => pl <> [] /\ o_first_set o = true /\ o_cnr o <> 0 /\ o_link_parses o = true /\ e_split_ok e = true
+    | TTombstone => sys_in_header (o_ver o) = true /\ pl = [] /\ e_tomb_ok e = true
+    | TLock => sys_in_header (o_ver o) = true /\ pl = []
+    | _ => True
+    end.
+
+  (* EC parts are unsigned by design: the parent header they carry is their authentication.
+     Its ID is the hash of the parent header and its signature authenticates the owner or the
+     session (unless the parent header itself consists of EC attributes only, which the
+     implementation classifies as EC and does not authenticate: visible as the premise) *)
+  Definition ec_parent_auth (e : env) (o : obj) : Prop :=
+    exists p, o_parent o = Some p /\ o_id p = Some (H (o_hdrbin p)) /\
+              (check_ec p (e_rules e) false true = Some false -> auth_ok p).
+
   (* what the property asks of a stored object with payload pl *)
   Definition stored_ok (e : env) (allow_all : bool) (o : obj) (pl : bytes) : Prop :=
     o_id o = Some (H (o_hdrbin o)) /\
     o_size o = blen pl /\
     (exists ty, o_cs o = Some (ty, H pl)) /\
+    content_ok e o pl /\
+    (is_ec_obj e o = true -> ec_parent_auth e o) /\
     format_ok e allow_all o /\
     (is_ec_obj e o = false -> auth_ok o).
 
@@ -138,6 +161,18 @@ Section Crypto.
   Definition stored_okb (e : env) (allow_all : bool) (o : obj) (pl : bytes) : bool :=
     id_ok H o && (o_size o =? blen pl) &&
     (match o_cs o with Some (_, v) => bytes_eqb v (H pl) | None => false end) &&
+    validate_content e o pl &&
+    (if is_ec_obj e o then
+       match o_parent o with
+       | Some p => id_ok H p &&
+                   match check_ec p (e_rules e) false true with
+                   | Some false => authenticate sig_ok key_ok user_of tok1_ok tok2_ok n3_ok p
+                   | Some true => true
+                   | None => false
+                   end
+       | None => false
+       end
+     else true) &&
     format_okb e allow_all o &&
     (if is_ec_obj e o then true else authenticate sig_ok key_ok user_of tok1_ok tok2_ok n3_ok o).
 End Crypto.
